@@ -283,10 +283,13 @@ Fixpoint add_core (own : N) (e : env) (fuel : nat) (t : table) (p : peer) : res 
             match choose_replace e b with
             | None => (Ret false, [], t)
             | Some q =>
-              if probe e q then (Ret false, [q], t)
-              else match add_core own e f (pre ++ bucket_remove b q :: post) p with
-                   | (r, pr, t3) => (r, q :: pr, t3)
-                   end
+              match probe e q with
+              | PReply => (Ret false, [q], t)
+              | PLocalFail => (ErrProbe, [q], t)
+              | PDead => match add_core own e f (pre ++ bucket_remove b q :: post) p with
+                         | (r, pr, t3) => (r, q :: pr, t3)
+                         end
+              end
             end
         end
       end
@@ -311,7 +314,7 @@ Proof.
     rewrite IH; [reflexivity | exact W' |].
     eapply NC_perm; [exact N |]. intros x Hx. eapply Permutation_in; [symmetry; exact P | exact Hx].
   - destruct (choose_replace e b) as [q |]; [| reflexivity].
-    destruct (probe e q); [reflexivity |]. subst t.
+    destruct (probe e q); [reflexivity | | reflexivity]. subst t.
     destruct (wf_replace_sub own pre b (bucket_remove b q) post W eq_refl eq_refl (remove_first_sub _ _)) as (W' & S).
     rewrite IH; [reflexivity | exact W' |].
     eapply NC_perm; [exact N |]. intros x Hx. eapply sub_In; eauto.
@@ -324,7 +327,7 @@ Lemma add_core_inv own e fuel : forall t p,
   | (r, pr, t') =>
       WF own t' /\
       (r = Ret true -> In p (contacts t')) /\
-      (forall x, In x (contacts t) -> pid x <> pid p -> probe e x = true -> In x (contacts t')) /\
+      (forall x, In x (contacts t) -> pid x <> pid p -> probe e x <> PDead -> In x (contacts t')) /\
       (forall x, In x (contacts t) -> pid x <> pid p -> ~ In x pr -> In x (contacts t')) /\
       (forall x, In x (contacts t') -> x = p \/ In x (contacts t)) /\
       (forall x, In x pr -> In x (contacts t) /\ pid x <> pid p) /\
@@ -384,8 +387,10 @@ Proof.
     assert (Hqt : In q (contacts t)).
     { subst t. rewrite contacts_mid. apply in_or_app. right. apply in_or_app. left. exact Hq. }
     destruct (probe e q) eqn:Pq.
-    { split; [exact W |]. split; [discriminate |]. split; [auto |]. split; [auto |]. split; [auto |].
-      split; [| discriminate]. intros x [<- | []]. split; [exact Hqt | apply Pnew; exact Hq]. }
+    1:{ split; [exact W |]. split; [discriminate |]. split; [auto |]. split; [auto |]. split; [auto |].
+        split; [| discriminate]. intros x [<- | []]. split; [exact Hqt | apply Pnew; exact Hq]. }
+    2:{ split; [exact W |]. split; [discriminate |]. split; [auto |]. split; [auto |]. split; [auto |].
+        split; [| discriminate]. intros x [<- | []]. split; [exact Hqt | apply Pnew; exact Hq]. }
     subst t.
     destruct (wf_replace_sub own pre b (bucket_remove b q) post W eq_refl eq_refl (remove_first_sub _ _)) as (W' & S).
     assert (N' : NC (pre ++ bucket_remove b q :: post) p).
